@@ -108,7 +108,12 @@ class Multiplication:
     cpy = segment.clone()
     cpy.name = clone_name
     cpy.connect(self)
+    edges = []
     for l in segment.dovetails + segment.containments:
+      # (a circular edge is listed once for each of its two sides)
+      if not any(l is other for other in edges):
+        edges.append(l)
+    for l in edges:
       lc = l.clone()
       if lc.from_segment == segment.name:
         lc.from_segment = clone_name
@@ -184,7 +189,7 @@ class Multiplication:
       links = self.segment(sn).dovetails_of_end(end_type).copy()
       for l in links:
         l_sig = repr(l.other_end(gfapy.SegmentEnd(sn, end_type)))
-        if l_sig not in to_keep:
+        if l_sig not in to_keep and l.is_connected():
           l.disconnect()
 
   def _segment_and_segment_name(self, segment_or_segment_name):
